@@ -1257,6 +1257,28 @@ class FnEmitter:
                     # the moved-from object stays valid but its value is unspecified afterwards
                     return 'MOVE__%s(&%s)' % (sanitize(self.ct(args[0])), self.expr(args[0]))
                 return self.expr(args[0])
+            if name in ('all_of', 'any_of', 'none_of') and len(args) == 3 and ref.get('id') not in self.idx.qname:
+                lam = self.strip_all(args[2])
+                itct = self.ct(args[0])
+                if lam.get('kind') == 'LambdaExpr' and itct.split('_')[0] in ('vecit', 'deqit'):
+                    # std::all_of / any_of / none_of over a vector with a closure: the algorithm's definition ([alg.all.of] etc.),
+                    # written out as the loop it is - the closure is applied in order and the walk stops at the first decisive
+                    # element.  The loop gets an ordinary loop-contract slot.
+                    lname = self.u.lift_lambda(self, lam)
+                    extra = []
+                    for x in lam.get('_call_extra', []):
+                        extra.append(x[1:] if x.startswith('&') and getattr(self, 'is_lambda', False) else x)
+                    self.tmp_no = getattr(self, 'tmp_no', 0) + 1
+                    it, r = '__alg_it%d' % self.tmp_no, '__alg_r%d' % self.tmp_no
+                    S_ = sanitize(itct)
+                    el = self.ty.elem.get(itct)
+                    deref = ('(*%s__ref(%s))' % (S_, it)) if (el and self.ty.is_oomd_struct(el)) else '%s__op_deref(%s)' % (S_, it)
+                    call = '%s(%s)' % (lname, ', '.join(extra + [deref]))
+                    stop, init, fin = {'all_of': ('!%s' % call, '1', '0'), 'any_of': (call, '0', '1'), 'none_of': (call, '1', '0')}[name]
+                    return ('({ _Bool %s = %s; %s %s = %s; %s __alg_end%d = %s; for (; !%s__op_eq(%s, __alg_end%d); %s__op_inc(&%s))\n%s\n'
+                            '{ if (%s) { %s = %s; break; } } %s; })' % (
+                                r, init, itct, it, self.expr(args[0]), itct, self.tmp_no, self.expr(args[1]), S_, it, self.tmp_no, S_, it,
+                                self.loop_macro(), stop, r, fin, r))
             if name == 'make_shared' and ref.get('id') not in self.idx.qname:
                 rct = self.ct(n)
                 if rct.startswith('vec_'):
@@ -1862,7 +1884,9 @@ class FnEmitter:
 
     def loop_macro(self):
         self.loop_no += 1
-        return 'LOOPC_%s_%d' % (self.cname, self.loop_no)
+        # the loop contract comes from the spec; -DACXX_NO_LOOP_CONTRACTS builds the same code without any (bounded
+        # refutation fallback of the driver, when the changed code no longer fits the contract's variables)
+        return '#ifndef ACXX_NO_LOOP_CONTRACTS\nLOOPC_%s_%d\n#endif' % (self.cname, self.loop_no)
 
     def s_ForStmt(self, n):
         # children: init, condvar(None), cond, inc, body  (missing ones are {} placeholders)
